@@ -41,10 +41,9 @@ package hessian
 //@   ensures [C02,C05:lower-first] err == nil && len(result0) == len(name) && result0[0] == ite('A' <= name[0] && name[0] <= 'Z', name[0] + 32, name[0])
 
 //@ func capitalizeName
-//@   requires len(name) > 0
 //@   pure
 //@   defines R.capName(name)
-//@   ensures [C05:cap-first] len(result) == len(name) && result[0] == ite('a' <= name[0] && name[0] <= 'z', name[0] - 32, name[0])
+//@   ensures [C05:cap-first] len(result) == len(name) && (len(name) > 0 ==> result[0] == ite('a' <= name[0] && name[0] <= 'z', name[0] - 32, name[0]))
 
 // ---------------------------------------------------------------- leaf writers
 // @W: some Write returned an error or a short count; @E: an error value was created;
